@@ -29,6 +29,18 @@ class Env:
         return e
 
 
+def reassigned_in(block):
+    """names that are the target of an assignment / compound assignment somewhere inside the block: such a `let mut` is a
+    running value (counter, accumulator), not a definition that may be substituted for its uses"""
+    out = set()
+    for x in H.walk(block):
+        if H.kind(x) in ("Assign", "AssignOp"):
+            l = H.path_local(x.get("l"))
+            if l is not None:
+                out.add(l)
+    return out
+
+
 def is_plumbing(n):
     t = (n.get("ty") or "").lstrip("&").replace("mut ", "")
     return t.startswith(PLUMBING_TYPES) or t in PLUMBING_EXACT
@@ -68,8 +80,15 @@ def norm(n, env, depth=0):
         return ("resultval", result_tail(dict(n, inlined_result=False), env, depth + 1))
     if k == "Block":
         e2 = env.child()
+        ra = None
         for s in n["stmts"]:
             if s["k"] == "Let" and H.kind(s["pat"]) == "Bind" and s.get("init") is not None:
+                if "Mut" in (s["pat"].get("mode") or ""):
+                    ra = reassigned_in(n) if ra is None else ra
+                    if s["pat"]["name"] in ra:
+                        e2.roles.pop(s["pat"]["name"], None)
+                        e2.inline.pop(s["pat"]["name"], None)
+                        continue  # stays ("var", name): a running value, not a definition
                 ce = e2.child()
                 e2.roles.pop(s["pat"]["name"], None)
                 e2.inline[s["pat"]["name"]] = (s["init"], ce)
@@ -224,8 +243,15 @@ def result_tail(n, env, depth=0):
     k = H.kind(n)
     if k == "Block":
         e2 = env.child()
+        ra = None
         for s in n["stmts"]:
             if s["k"] == "Let" and H.kind(s["pat"]) == "Bind" and s.get("init") is not None:
+                if "Mut" in (s["pat"].get("mode") or ""):
+                    ra = reassigned_in(n) if ra is None else ra
+                    if s["pat"]["name"] in ra:
+                        e2.roles.pop(s["pat"]["name"], None)
+                        e2.inline.pop(s["pat"]["name"], None)
+                        continue  # stays ("var", name): a running value, not a definition
                 ce = e2.child()
                 e2.roles.pop(s["pat"]["name"], None)
                 e2.inline[s["pat"]["name"]] = (s["init"], ce)
